@@ -459,6 +459,17 @@ def fixed_objects():
     o.relocations.append(RelocationEntry('rel32', 1, 'code', 8, -4))
     o.relocations.append(RelocationEntry('abs64', 0, 'code', 0, 0))
     out.append(('fix-reloc-at-end', o, 'relocatable'))
+    # two .rela tables (each has its own offset, alignment padding between them), unsorted section names
+    o = mk_obj('x86_64')
+    o.add_section(sec('zdata', 0, 1, range(5)))
+    o.add_section(sec('code', 0, 4, range(13)))
+    o.add_symbol(0, 'l', 'local', 1, 'zdata', 'object', 0)
+    o.add_symbol(1, 'ext', 'global', None, None, 'func', 0)
+    o.add_symbol(2, 'g', 'global', 4, 'code', 'func', 0)
+    for rt, sid, sn, off, add in (('abs32', 0, 'zdata', 1, 0), ('rel32', 1, 'code', 9, -4), ('abs64', 2, 'zdata', 0, 7),
+                                  ('rel32', 2, 'code', 0, -4), ('absaddr64', 0, 'code', 4, 0)):
+        o.relocations.append(RelocationEntry(rt, sid, sn, off, add))
+    out.append(('fix-two-rela-tables', o, 'relocatable'))
     return out
 
 
@@ -1093,7 +1104,7 @@ def run(ctx):
     logging.disable(logging.CRITICAL)
     _imports()
     regen(ctx)
-    ok, _ = ctx.build(['Proofs/C17_codec.vo', 'Proofs/C17_recover.vo', 'Proofs/C17_bounded.vo', 'Proofs/C17_file.vo', 'Proofs/C17_tables.vo'])
+    ok, _ = ctx.build(['Proofs/C17_codec.vo', 'Proofs/C17_recover.vo', 'Proofs/C17_bounded.vo', 'Proofs/C17_file.vo', 'Proofs/C17_tables.vo', 'Proofs/C17_contents.vo'])
     if ok:
         ctx.check_props('Props/C17.v')
     if ctx.build(['Model/ElfWriter.vo', 'Proofs/C17_recover.vo', 'Lib/Val.vo'])[0]:
@@ -1118,7 +1129,7 @@ MANIFEST = {
             'instances incl. malformed ones) and that binutils readelf and ppci\'s own ElfFile.load read the same facts '
             '(search oracle). Proved for every object (c17_file_layout + corollaries): every section and image byte range recorded '
             'by the writer lies in the final file and holds the section / Image.data bytes, with size, address, alignment, name '
-            'index, PT_LOAD vaddr/filesz and (after the congruence fix) p_offset = p_vaddr mod page size. Wave 3, every object: c17_whole_file_tables — the reader decodes from the final bytes the ELF header record, the null + all recorded section headers at e_shoff (all fields, sh_link patched) and the program headers after the ELF header; c17_{shdr_table,symtab,rela,phdr}_read for lists of any length; c17_writer_{symbols,relas,section_headers}: the loops emit records with the prescribed fields. Still bounded only: the placement of .symtab/.rela/.strtab contents at their sh_offset inside the whole file and the acceptance of the complete ElfSpec.read.',
+            'index, PT_LOAD vaddr/filesz and (after the congruence fix) p_offset = p_vaddr mod page size. Wave 3, every object: c17_whole_file_tables — the reader decodes from the final bytes the ELF header record, the null + all recorded section headers at e_shoff (all fields, sh_link patched) and the program headers after the ELF header; c17_{shdr_table,symtab,rela,phdr}_read for lists of any length; c17_writer_{symbols,relas,section_headers}: the loops emit records with the prescribed fields. Wave 4, every object: c17_whole_file_contents — in the final file the .strtab, .symtab and every .rela<section> header designate exactly the string table and the serialised symbol / RELA records of the object (locals first, sh_info, names, per-section RELA offsets); c17_{symtab,rela,strtab}_in_file: the reader returns them. Still bounded only: that symbol_id_map maps ids to the table index of the symbol (r_sym) and the single-call acceptance of the monolithic ElfSpec.read.',
     'note': 'not modelled: ET_DYN (.dynamic/PT_DYNAMIC/DT_NEEDED), create_hash_table (dead code), DWARF (never emitted). '
             'Defects: big-endian (microblaze) files announce ELFDATA2MSB but pack every field in native order '
             '(fixes/C17-header-endianness.diff; Coq refutation c17_native_order_bigendian_refuted); relocatable files '
